@@ -589,6 +589,7 @@ def run(tier):
     rep.assume('get_int_param is abstracted: returns some integer in 0..2**36 (negative values are outside the documented option syntax)')
     rep.assume('RLE pair, whole-file round trips, cross-format equality, independent readers, poke/move: bounded stand-ins, never counted as proved')
     check_codecs(rep)
+    check_rle_structure(rep)
     quick = tier == 'quick'
     n, bad = rle_bounded(quick)
     rep.bounded.append({'function': 'skoolkit.snapshot.Z80._make_z80_ram_block / Z80._decompress', 'contract': 'decompress(compress(d)) == d; length prefix / end marker; bytes in 0..255',
@@ -628,3 +629,142 @@ def replay(path):
             return 1
         return 0
     return 1
+
+
+# ------------------------------------------------------------------ RLE writer: structural lemmas (P)
+def check_rle_structure(rep):
+    """Z80._make_z80_ram_block for data of ANY length: every element appended to
+    the block is a byte; every run token ED ED n v has 1 <= n <= 255 (never the
+    forbidden ED ED 00) and is emitted only for runs the format allows (n >= 5, or
+    n >= 2 of ED); the loop invariant is `prev_b is None and count == 0` or
+    `prev_b is a byte and 1 <= count <= 255`.  (That decompress inverts it is
+    the bounded-exhaustive part.)"""
+    import skoolkit.snapshot as S
+    from pyvc.engine import PathEnd, _Continue, TrackedDict
+    W = poly.W
+    fn = S.Z80._make_z80_ram_block
+    node, _ = func_ast(fn)
+    loops = sorted([x for x in ast.walk(node) if isinstance(x, (ast.While, ast.For))], key=lambda x: (x.lineno, x.col_offset))
+    q = fn.__qualname__
+
+    class Block:
+        pass
+
+    def start(eng):
+        p = eng.path
+        p.emitted = 0
+
+        def extend(e, args, kwargs, n_):
+            items = args[0]
+            if isinstance(items, SymList):
+                items = items.items
+            if not isinstance(items, (tuple, list)):
+                e.oblige('emit.known', False, n_)
+                return None
+            for it in items:
+                e.oblige('emit.byte', and_(cmpop('>=', it, 0), cmpop('<=', it, 255)), n_)
+            if len(items) == 4 and isinstance(items[0], int) and items[0] == 237 and isinstance(items[1], int) and items[1] == 237:
+                cnt, val = items[2], items[3]
+                e.oblige('emit.run_length', and_(cmpop('>=', cnt, 1), cmpop('<=', cnt, 255)), n_)
+                e.oblige('emit.run_allowed', or_(cmpop('>=', cnt, 5), and_(cmpop('>=', cnt, 2), cmpop('==', val, 237))), n_)
+            return None
+        block = BlockModel(extend)
+
+        def loop(e, node_):
+            fr = e.frames[-1]
+            e.oblige('inv.establish', fr.loc['prev_b'] is None and fr.loc['count'] == 0, node_)
+            e.fresh_n += 1
+            if e.decide(SB(z3.Bool('prev_is_none!%d' % e.fresh_n))):
+                fr.loc['prev_b'] = None
+                fr.loc['count'] = 0
+            else:
+                fr.loc['prev_b'] = e.fresh('prev_b', 0, 255)
+                fr.loc['count'] = e.fresh('count', 1, 255)
+            e.fresh_n += 1
+            if e.decide(SB(z3.Bool('more!%d' % e.fresh_n))):
+                fr.loc['b'] = e.fresh('b', 0, 255)
+                try:
+                    e.exec_block(node_.body)
+                except _Continue:
+                    pass
+                pb, c = fr.loc['prev_b'], fr.loc['count']
+                if pb is None:
+                    e.oblige('inv.preserve', cmpop('==', c, 0), node_)
+                else:
+                    e.oblige('inv.preserve', and_(cmpop('>=', pb, 0), cmpop('<=', pb, 255), cmpop('>=', c, 1), cmpop('<=', c, 255)), node_)
+                raise PathEnd()
+            # loop exit: the flush after the loop runs on the invariant state
+        eng.loop_invariants = {(q, 0): loop}
+        eng.list_model = block
+        me = ObjModel(None, name='z80', cls=S.Z80)
+        try:
+            eng.call_function(fn, [me, UNKSEQ, 5])
+        except poly.Refuse:
+            raise
+    eng = RleEngine(inline_ok=lambda f: False, unknown_ok=True)
+    FuncVC(rep, 'C09', fn, 'skoolkit.snapshot.Z80._make_z80_ram_block[structure]', eng).run(start, None, replay_rle)
+
+
+class BlockModel:
+    def __init__(self, on_extend):
+        self.on_extend = on_extend
+
+
+class _UnkSeq:
+    pass
+
+
+UNKSEQ = _UnkSeq()
+
+
+class RleEngine(Engine):
+    list_model = None
+
+    def ev(self, e):
+        if isinstance(e, ast.List) and not e.elts and self.list_model is not None:
+            return self.list_model
+        return super().ev(e)
+
+    def getattr(self, obj, attr, node):
+        if isinstance(obj, BlockModel):
+            if attr == 'extend':
+                return CallModel(obj.on_extend, 'extend')
+            raise poly.Refuse('block method ' + attr)
+        return super().getattr(obj, attr, node)
+
+    def exec_for(self, s):
+        it = self.ev(s.iter)
+        if isinstance(it, _UnkSeq):
+            return self.exec_loop_with_invariant(s)
+        return super().exec_for(s)
+
+    def binop(self, op, a, b, node=None):
+        # (prev_b,) * count with symbolic count: `count` copies of a byte (only the element matters for emit.byte)
+        if op == '*' and isinstance(a, tuple) and len(a) == 1 and isinstance(b, SV):
+            return (a[0],)
+        if op == '+' and (isinstance(a, BlockModel) or isinstance(b, BlockModel)):
+            return a if isinstance(a, BlockModel) else b
+        return super().binop(op, a, b, node)
+
+    def call(self, f, args, kwargs, node):
+        if f is bytes or f is len:
+            if args and isinstance(args[0], (BlockModel, SymList)):
+                from pyvc.engine import UNK
+                return UNK
+        return super().call(f, args, kwargs, node)
+
+
+def replay_rle(vals, kind):
+    import skoolkit.snapshot as S
+    z = S.Z80(ram=[0] * 49152)
+    for run in (254, 255, 256, 257, 510, 511, 512, 600):
+        for v in (7, 237):
+            d = [9] + [v] * run + [3]
+            try:
+                blk = list(z._make_z80_ram_block(d, 5))
+                back = z._decompress(blk[3:])
+            except Exception as ex:
+                return {'case': {'data': '09, %d x %02X, 03' % (run, v)}, 'diffs': [('exception', repr(ex))]}
+            if back != d:
+                return {'case': {'data': '09, %d x %02X, 03' % (run, v)}, 'diffs': [('roundtrip', len(back), len(d))]}
+    return {'case': vals, 'diffs': []}
